@@ -64,6 +64,10 @@ pub struct Rt<'a> {
     /// consumed to check for error, which is propagated up to fail the simulation.
     handle: Option<JoinHandle<Result>>,
 
+    /// Set while the host is crashed, i.e. its tasks have been dropped by
+    /// [`Rt::crash`] and it has not been bounced yet.
+    crashed: bool,
+
     /// Runtime configuration.
     config: Config,
 }
@@ -83,6 +87,7 @@ impl<'a> Rt<'a> {
             local,
             nodename,
             handle: Some(handle),
+            crashed: false,
             config,
         }
     }
@@ -103,6 +108,7 @@ impl<'a> Rt<'a> {
             local,
             nodename,
             handle: Some(handle),
+            crashed: false,
             config,
         }
     }
@@ -117,6 +123,7 @@ impl<'a> Rt<'a> {
             local,
             nodename: String::new().into(),
             handle: None,
+            crashed: false,
             config,
         }
     }
@@ -131,6 +138,11 @@ impl<'a> Rt<'a> {
 
     pub(crate) fn is_software_running(&self) -> bool {
         self.handle.is_some()
+    }
+
+    /// Whether the host has been crashed and not yet bounced.
+    pub(crate) fn is_crashed(&self) -> bool {
+        self.crashed
     }
 
     pub(crate) fn now(&self) -> Instant {
@@ -195,6 +207,7 @@ impl<'a> Rt<'a> {
 
         if self.handle.take().is_some() {
             self.cancel_tasks();
+            self.crashed = true;
         };
     }
 
@@ -204,6 +217,7 @@ impl<'a> Rt<'a> {
         }
 
         self.cancel_tasks();
+        self.crashed = false;
 
         if let Kind::Host { software } = &self.kind {
             let handle = with(&self.tokio, &self.local, || {
